@@ -60,4 +60,83 @@ theorem tls_exactly_once_interleaved {σ : Type} (parse : Huginn.Tls.Bytes → P
   rw [hkeys, flow_exactly_once parse ({ cap := cap } : Flows FlowKey σ) c s0 rest hcap (by rfl) hr hp hcat hhead hlater]
   simp [toPOut, List.map_append, List.map_replicate]
 
+/-- Segments without payload (the handshake's SYN, bare ACKs) of a flow the table does not hold: nothing is
+stored, nothing is reported. -/
+theorem runPacketsS_emptyPrefix {κ σ : Type} [DecidableEq κ] (parse : Huginn.Tls.Bytes → PR σ) (f : Flows κ σ) (k : κ)
+    (hk : ∀ e ∈ f.entries, e.1 ≠ k) (pre ps : List (κ × Bool × Huginn.Tls.Bytes))
+    (hpre : ∀ x ∈ pre, x.1 = k ∧ x.2.2 = []) :
+    runPacketsS parse f (pre ++ ps) = List.replicate pre.length POut.none ++ runPacketsS parse f ps := by
+  have hrm : f.remove k = f := by
+    unfold Flows.remove
+    have : f.entries.filter (fun e => e.1 ≠ k) = f.entries := by
+      apply List.filter_eq_self.2
+      intro e he; simpa using hk e he
+    rw [this]
+  induction pre with
+  | nil => rfl
+  | cons x pre ih =>
+    obtain ⟨k', syn, p⟩ := x
+    obtain ⟨h1, h2⟩ := hpre (k', syn, p) (by simp)
+    simp only at h1 h2; subst h1; subst h2
+    have hf : (if syn = true then f.remove k' else f) = f := by split <;> simp [hrm]
+    simp only [List.cons_append, runPacketsS, processTcpS, hf, processTcp, processTcpT, List.isEmpty_nil, if_true,
+      List.length_cons, List.replicate_succ, List.cons.injEq, true_and]
+    exact ih (fun y hy => hpre y (by simp [hy]))
+
+/-- **The connection as it appears on the wire**: the flow's segments in the capture are first any number of
+segments without payload (the SYN of the handshake, bare ACKs — whatever their flags), then the data segments of
+`tls_exactly_once_interleaved`. The segments without payload are answered with nothing, the rest as before. -/
+theorem tls_exactly_once_interleaved_handshake {σ : Type} (parse : Huginn.Tls.Bytes → PR σ) {r tail : Huginn.Tls.Bytes} {s : σ}
+    (s0 : Huginn.Tls.Bytes) (rest : List Huginn.Tls.Bytes)
+    (hr : IsRecord r) (hp : parse r = .sig s) (hcat : (s0 :: rest).flatten = r ++ tail)
+    (hhead : Spec.startsRecord s0 = true)
+    (hlater : ∀ x ∈ (s0 :: rest).drop (Spec.completionIdx r.length (s0 :: rest) + 1), Spec.startsRecord x = false)
+    (tr : List Seg) (c : FlowKey) (pre body : List Seg)
+    (hsel : tr.filter (fun p => decide (flowKeyOf p = c)) = pre ++ body)
+    (hpre : ∀ x ∈ pre, x.payload = [])
+    (hpay : body.map (·.payload) = s0 :: rest)
+    (hsyn : ∀ x ∈ body.drop 1, x.syn = false)
+    (a : Nat) (hwin : ∀ x ∈ pre ++ body, a ≤ x.time ∧ x.time ≤ a + (tlsP parse).ttlMs)
+    (cap : Nat) (hcap : 1 ≤ cap) (K : List FlowKey) (hK : ∀ x ∈ tr, flowKeyOf x ∈ K) (hlen : K.length ≤ cap) :
+    (((tlsAnalyzer (tlsP parse)).runOuts ({ cap := cap }, ()) tr).filter
+        (fun po => decide (flowKeyOf po.1 = c))).map (·.2) =
+      List.replicate pre.length none ++
+      (List.replicate (Spec.completionIdx r.length (s0 :: rest)) none ++ [some s]
+        ++ List.replicate ((s0 :: rest).length - Spec.completionIdx r.length (s0 :: rest) - 1) none) := by
+  have hkey : ∀ x ∈ pre ++ body, (⟨x.src, x.dst⟩ : FlowKey) = c := by
+    intro x hx
+    rw [← hsel] at hx
+    have := (List.mem_filter.1 hx).2
+    exact of_decide_eq_true this
+  rw [tls_isolation_cap (tlsP parse) c tr cap K hK hlen, hsel,
+    tls_trace_bridge_fresh parse a cap (pre ++ body) hwin, List.map_append]
+  rw [runPacketsS_emptyPrefix parse ({ cap := cap } : Flows FlowKey σ) c (by intro e he; cases he)
+    (pre.map (fun x => ((⟨x.src, x.dst⟩ : FlowKey), x.syn, x.payload))) _
+    (by
+      intro y hy
+      obtain ⟨z, hz, rfl⟩ := List.mem_map.1 hy
+      exact ⟨hkey z (by simp [hz]), hpre z hz⟩)]
+  have hS : runPacketsS parse ({ cap := cap } : Flows FlowKey σ)
+        (body.map (fun x => ((⟨x.src, x.dst⟩ : FlowKey), x.syn, x.payload))) =
+      runPackets parse ({ cap := cap } : Flows FlowKey σ)
+        (body.map (fun x => ((⟨x.src, x.dst⟩ : FlowKey), x.payload))) := by
+    cases body with
+    | nil => rfl
+    | cons x xs =>
+      rw [List.map_cons, runPacketsS_headSyn parse _ _ x.syn x.payload _ (by intro e he; cases he)
+        (by
+          intro y hy
+          obtain ⟨z, hz, rfl⟩ := List.mem_map.1 hy
+          exact hsyn z (by simpa using hz))]
+      simp [List.map_map, Function.comp_def]
+  rw [hS]
+  have hkeys : body.map (fun x => ((⟨x.src, x.dst⟩ : FlowKey), x.payload)) = (s0 :: rest).map (fun p => (c, p)) := by
+    rw [← hpay, List.map_map]
+    apply List.map_congr_left
+    intro x hx
+    simp only [Function.comp]
+    rw [hkey x (by simp [hx])]
+  rw [hkeys, flow_exactly_once parse ({ cap := cap } : Flows FlowKey σ) c s0 rest hcap (by rfl) hr hp hcat hhead hlater]
+  simp [toPOut, List.map_append, List.map_replicate]
+
 end Huginn.Props.C08
